@@ -104,6 +104,8 @@ public:
           o << " " << hex(el->name) << " " << hexd(s->next_elt[j].coef) << " " << mtype;
         }
         o << " " << hexd(s->rxn.token.size() ? s->rxn.token[0].coef : 0.0) << " " << hexd(s->rxn_x.token.size() ? s->rxn_x.token[0].coef : 0.0);
+        o << " " << hexd(s->equiv) << " " << hexd(s->alk);
+        for (int j = 0; j < 5; j++) o << " " << hexd(s->cd_music[j]);
         o << "\n";
       } else if (s->type <= HPLUS) {   // aqueous species incl. H+ (types AQ=0, HPLUS=1)
         o << "A " << hex(s->name) << " " << hexd(s->z) << " " << hexd(s->lm) << " " << hexd(s->moles) << " " << hexd(s->erm_ddl)
